@@ -519,7 +519,7 @@ func countSnp(root string) int {
 }
 
 // execute runs the history: W (write one batch), F (flush), M (merge all file parts), Fw / Mw (the same with
-// one more batch written while the part files are being written).
+// one more batch written while the part files are being written; Fww / Mww: two more batches).
 func execute(root string, hist []string, sh shape) (*run, error) {
 	rn := &run{rec: newRecorder(root), batchRow: map[int][]string{}, hist: hist, sh: sh}
 	rec := rn.rec
@@ -536,16 +536,21 @@ func execute(root string, hist []string, sh shape) (*run, error) {
 		rec.mu.Unlock()
 		rec.marker("W", id, 0, nil)
 	}
-	inject := func() { // one write when the first data file of the running flush/merge is created
-		done := false
+	inject := func(n int) { // n writes while the running flush/merge creates its data files (one per created file)
+		left := n
 		rec.hook = func(ev sysEvent) {
-			if !done && ev.Op == "create" && kindOf(ev.Path) == "data-file" {
-				done = true
+			if left > 0 && ev.Op == "create" && kindOf(ev.Path) == "data-file" {
+				left--
 				write()
 			}
 		}
 	}
 	for _, op := range hist {
+		racing := len(op) - len(strings.TrimRight(op, "w"))
+		op = strings.TrimRight(op, "w")
+		if racing > 0 {
+			op += "w"
+		}
 		rec.mu.Lock()
 		rec.macro = op
 		rec.mu.Unlock()
@@ -559,7 +564,7 @@ func execute(root string, hist []string, sh shape) (*run, error) {
 			}
 			rec.marker("F", 0, 0, mem)
 			if op == "Fw" {
-				inject()
+				inject(racing)
 			}
 			t.Flush()
 			rec.hook = nil
@@ -581,7 +586,7 @@ func execute(root string, hist []string, sh shape) (*run, error) {
 			rec.mu.Unlock()
 			rec.marker("M", 0, out, file)
 			if op == "Mw" {
-				inject()
+				inject(racing)
 			}
 			got, err := t.Merge(file)
 			rec.hook = nil
